@@ -52,6 +52,7 @@ def main(ck):
     if ck.cargo_build(BINS):
         for mode, name in [
             ("helpers", "remove-doubles-helper"),
+            ("api", "public-api-interleavings"),
             ("traj", "trajectories"),
             ("thr", "acceptance-thresholds"),
             ("imp", "importance-table"),
